@@ -33,8 +33,16 @@ Fixpoint consecutive_from (g : nat) (l : list nat) : bool :=
 Definition valid_cblc_strike (st : nat * nat * list nat) : bool :=
   let '(s, e, gids) := st in
   consecutive_from s gids && Nat.eqb (s + length gids) (S e) && negb (Nat.eqb (length gids) 0).
+(* ... and the strikes (all of one size: nanoemoji writes one ppem) come in increasing glyph-id order and do not
+   overlap: no glyph has two bitmaps of one size *)
+Fixpoint strikes_apart_from (lo : nat) (strikes : list (nat * nat * list nat)) : bool :=
+  match strikes with
+  | [] => true
+  | st :: r => Nat.leb lo (fst (fst st)) && Nat.leb (fst (fst st)) (snd (fst st)) && strikes_apart_from (S (snd (fst st))) r
+  end.
 Definition valid_cblc (strikes : list (nat * nat * list nat)) (nglyphs : nat) : bool :=
-  forallb valid_cblc_strike strikes && forallb (fun st => Nat.ltb (snd (fst st)) nglyphs) strikes.
+  forallb valid_cblc_strike strikes && forallb (fun st => Nat.ltb (snd (fst st)) nglyphs) strikes &&
+  strikes_apart_from 0 strikes.
 
 (* glyph-set agreement: hmtx, outlines, maxp, post (when it has names) all have nglyphs entries;
    every cmap target is a glyph *)
